@@ -413,82 +413,7 @@ func runC17(c *Ctx) {
 		c.sites++
 		c.Check(fname(ame)+"#reported-gas-after-refund", refundCall.Pos(), okAfter, ifelse(okAfter, "the reported gas is computed after refundGas", "the gas figure reported to the caller is taken before refundGas adds the refund counter back: the sender pays for (used − refund) gas while receipt, block gas used and gas rewards count the unreduced figure, so rewards credited exceed fees paid by refund × price"))
 	}
-	// what a converter reports as used must be what refundGas will leave consumed
-	for _, cv := range []struct{ pkg, recv, name string }{{"staking", "TxConverter", "ApplyMessage"}, {"core", "StateTransition", "TransitionDb"}} {
-		fn := w.Fn(cv.pkg, cv.recv, cv.name)
-		c.sawFunc(fname(fn))
-		v4 := constOf(w, "params", "YouV4")
-		for _, b := range fn.Blocks {
-			r, ok := b.Instrs[len(b.Instrs)-1].(*ssa.Return)
-			if !ok || b == fn.Recover {
-				continue
-			}
-			res := r.Results[1]
-			// defer-spilled result
-			if u, isU := res.(*ssa.UnOp); isU {
-				if a, isA := u.X.(*ssa.Alloc); isA && u.Block() == b {
-					for i := instrIndex(u) - 1; i >= 0; i-- {
-						if st, isSt := b.Instrs[i].(*ssa.Store); isSt && st.Addr == a {
-							res = st.Val
-							break
-						}
-					}
-				}
-			}
-			fig := stripConv(res)
-			c.sites++
-			key := fmt.Sprintf("%s#reported-gas@%s", fname(fn), blockOrdinal(fn, b))
-			if n, isC := constInt(fig); isC && n == 0 {
-				// refused before anything was charged (error return)
-				c.Pass(key, r.Pos(), "reports 0 together with an error")
-				continue
-			}
-			if cc, isCall := fig.(*ssa.Call); isCall && calleeObj(cc) != nil && calleeObj(cc).Name() == "GasUsed" {
-				c.Pass(key, r.Pos(), "reports GasUsed() at the return")
-				continue
-			}
-			if f, _ := loadedField(fig); f != nil && f.Name() == "InitialGas" {
-				// all gas must have been consumed: UseGas(AvailableGas) on every path, or pre-V4 history
-				consumeAll := func(x *ssa.BasicBlock) bool {
-					for _, in := range x.Instrs {
-						if ci, ok := in.(ssa.CallInstruction); ok {
-							if o := calleeObj(ci); o != nil && o.Name() == "UseGas" {
-								if af, _ := loadedField(stripConv(callArgs(ci)[0])); af != nil && af.Name() == "AvailableGas" {
-									return true
-								}
-							}
-						}
-					}
-					return false
-				}
-				ok := consumeAll(b) || allPathsPassEdge(fn, b, func(from, to *ssa.BasicBlock) bool {
-					if consumeAll(from) || (to != b && consumeAll(to)) {
-						return true
-					}
-					f, isIf := edgeFact(from, to)
-					if !isIf {
-						return false
-					}
-					a := atomsOf([]Fact{f})[0]
-					if a.Kind == "cmp" {
-						op := a.Op
-						if !a.Truth {
-							op = negateCmp(op)
-						}
-						if vf, _ := loadedField(stripConv(a.X)); vf != nil && vf.Name() == "Version" && op == token.LSS {
-							if cvv, isC := stripConv(a.Y).(*ssa.Const); isC && cvv.Value != nil && constant.Compare(constant.ToInt(cvv.Value), token.EQL, constant.ToInt(v4)) {
-								return true // pre-V4 protocol: historic behaviour
-							}
-						}
-					}
-					return false
-				})
-				c.Check(key, r.Pos(), ok, ifelse(ok, "reports InitialGas after consuming all available gas (or under a pre-V4 protocol)", "the whole gas limit is reported as used although the remaining gas was not consumed: refundGas returns it to the sender while receipt, block gas and gas rewards count it — rewards exceed fees"))
-				continue
-			}
-			c.Fail(key, r.Pos(), "the gas figure reported by the converter is neither GasUsed() nor the fully consumed InitialGas")
-		}
-	}
+	converterGasFigures(c, w)
 	rg := w.Fn("core", "MessageContext", "refundGas")
 	c.sawFunc(fname(rg))
 	capOK, sameGas := false, false
@@ -579,5 +504,86 @@ func c17Variants() []Variant {
 		{Name: "debit-before-pool", File: "core/message_context.go", Old: "	if err := mc.GP.SubGas(mc.Msg.Gas()); err != nil {\n		return err\n	}\n	mc.AvailableGas = mc.Msg.Gas()\n	mc.InitialGas = mc.Msg.Gas()\n	mc.State.SubBalance(from, mgval)", New: "	mc.State.SubBalance(from, mgval)\n	if err := mc.GP.SubGas(mc.Msg.Gas()); err != nil {\n		return err\n	}\n	mc.AvailableGas = mc.Msg.Gas()\n	mc.InitialGas = mc.Msg.Gas()", Rule: "C17.T3", Construct: "buyGas#refuses-before-mutating"},
 		{Name: "staking-without-nonce", File: "staking/tx_converter.go", Old: "	msgCtx.State.SetNonce(from, msgCtx.State.GetNonce(from)+1)\n", New: "	_ = from\n", Rule: "C17.T4", Construct: "nonce-before-handler"},
 		{Name: "rewards-from-gas-limit", File: "core/state_processor.go", Old: "new(big.Int).Mul(tx.GasPrice(), new(big.Int).SetUint64(gas)))", New: "new(big.Int).Mul(tx.GasPrice(), new(big.Int).SetUint64(msg.Gas())))", Rule: "C17.T5", Construct: "one-gas-figure"},
+	}
+}
+
+// converterGasFigures: what a converter reports as used gas must be what
+// refundGas will leave consumed (shared by C17.T5 and C07.P6).
+func converterGasFigures(c *Ctx, w *World) {
+	// what a converter reports as used must be what refundGas will leave consumed
+	for _, cv := range []struct{ pkg, recv, name string }{{"staking", "TxConverter", "ApplyMessage"}, {"core", "StateTransition", "TransitionDb"}} {
+		fn := w.Fn(cv.pkg, cv.recv, cv.name)
+		c.sawFunc(fname(fn))
+		v4 := constOf(w, "params", "YouV4")
+		for _, b := range fn.Blocks {
+			r, ok := b.Instrs[len(b.Instrs)-1].(*ssa.Return)
+			if !ok || b == fn.Recover {
+				continue
+			}
+			res := r.Results[1]
+			// defer-spilled result
+			if u, isU := res.(*ssa.UnOp); isU {
+				if a, isA := u.X.(*ssa.Alloc); isA && u.Block() == b {
+					for i := instrIndex(u) - 1; i >= 0; i-- {
+						if st, isSt := b.Instrs[i].(*ssa.Store); isSt && st.Addr == a {
+							res = st.Val
+							break
+						}
+					}
+				}
+			}
+			fig := stripConv(res)
+			c.sites++
+			key := fmt.Sprintf("%s#reported-gas@%s", fname(fn), blockOrdinal(fn, b))
+			if n, isC := constInt(fig); isC && n == 0 {
+				// refused before anything was charged (error return)
+				c.Pass(key, r.Pos(), "reports 0 together with an error")
+				continue
+			}
+			if cc, isCall := fig.(*ssa.Call); isCall && calleeObj(cc) != nil && calleeObj(cc).Name() == "GasUsed" {
+				c.Pass(key, r.Pos(), "reports GasUsed() at the return")
+				continue
+			}
+			if f, _ := loadedField(fig); f != nil && f.Name() == "InitialGas" {
+				// all gas must have been consumed: UseGas(AvailableGas) on every path, or pre-V4 history
+				consumeAll := func(x *ssa.BasicBlock) bool {
+					for _, in := range x.Instrs {
+						if ci, ok := in.(ssa.CallInstruction); ok {
+							if o := calleeObj(ci); o != nil && o.Name() == "UseGas" {
+								if af, _ := loadedField(stripConv(callArgs(ci)[0])); af != nil && af.Name() == "AvailableGas" {
+									return true
+								}
+							}
+						}
+					}
+					return false
+				}
+				ok := consumeAll(b) || allPathsPassEdge(fn, b, func(from, to *ssa.BasicBlock) bool {
+					if consumeAll(from) || (to != b && consumeAll(to)) {
+						return true
+					}
+					f, isIf := edgeFact(from, to)
+					if !isIf {
+						return false
+					}
+					a := atomsOf([]Fact{f})[0]
+					if a.Kind == "cmp" {
+						op := a.Op
+						if !a.Truth {
+							op = negateCmp(op)
+						}
+						if vf, _ := loadedField(stripConv(a.X)); vf != nil && vf.Name() == "Version" && op == token.LSS {
+							if cvv, isC := stripConv(a.Y).(*ssa.Const); isC && cvv.Value != nil && constant.Compare(constant.ToInt(cvv.Value), token.EQL, constant.ToInt(v4)) {
+								return true // pre-V4 protocol: historic behaviour
+							}
+						}
+					}
+					return false
+				})
+				c.Check(key, r.Pos(), ok, ifelse(ok, "reports InitialGas after consuming all available gas (or under a pre-V4 protocol)", "the whole gas limit is reported as used although the remaining gas was not consumed: refundGas returns it to the sender while receipt, block gas and gas rewards count it — rewards exceed fees"))
+				continue
+			}
+			c.Fail(key, r.Pos(), "the gas figure reported by the converter is neither GasUsed() nor the fully consumed InitialGas")
+		}
 	}
 }
